@@ -57,6 +57,9 @@ static _Bool wf(HashMap *mp) {
 static void any_state(void) {
   for (int i = 0; i < CAP; i++) {
     int c = nondet_int_();
+#ifdef SHAPE
+    { static const int sh[CAP] = SHAPE; c = sh[i]; }      /* concrete slot kinds per job: the number of live keys, hence the capacity rehash picks, is a constant */
+#endif
 #ifdef CONCRETE_STATE
     /* slot kinds are concretised path by path (cbmc --paths lifo): the number of live keys, hence the capacity rehash picks, is then a constant on every path */
     switch (c) { case 0: c = 0; break; case 1: c = 1; break; case 2: c = 2; break; case 3: c = 3; break; default: c = 4; break; }
@@ -108,6 +111,13 @@ void harness(void) {
   OBLIGE(slot_of(B, CAP, id) < 0, "C17 after delete the key is absent");
   int so2 = slot_of(B, CAP, other);
   OBLIGE((so >= 0) == (so2 >= 0) && (so < 0 || B[so2].val == vo), "C17 delete leaves every other key's binding unchanged");
+#elif OPN == 4 /* rehash itself, called on a table of a concrete shape (kinds of the slots) with arbitrary hash values and values */
+  rehash(&M);
+  REACH("returns");
+  OBLIGE(M.capacity >= CAP && M.capacity <= 4 * CAP, "C17 rehash picks a capacity");
+  OBLIGE(wf(&M), "C17 rehash re-establishes the representation invariant");
+  { int s2 = slot_of(M.buckets, M.capacity, id); OBLIGE((sk >= 0) == (s2 >= 0) && (sk < 0 || M.buckets[s2].val == vk), "C17 rehash preserves every key's binding (a key behind a tombstone stays reachable)"); }
+  { int tomb = 0; for (int i = 0; i < M.capacity; i++) if (M.buckets[i].key == TOMBSTONE) tomb++; OBLIGE(tomb == 0, "C17 rehash drops every tombstone"); }
 #elif OPN == 3 /* put at or above the high watermark: goes through rehash (real code, fully unwound) */
   ASSUME((M.used * 100) / M.capacity >= 70);
   void *v = nondet_ptr_();
